@@ -45,7 +45,7 @@ def jobs(tier):
 
 
 class RunRestores(Harness):
-    witnesses = ('system_exit_propagates', 'stdout_replaced_by_last_part', 'expected_exception_after_print', 'filters_altered', 'awaits')
+    witnesses = ('system_exit_propagates', 'stdout_replaced_by_last_part', 'expected_exception_after_print', 'filters_altered', 'filters_altered_in_pytest_mode', 'awaits')
 
     def __init__(self, job):
         self.m = hrun.install(real_capture=True)
@@ -55,6 +55,7 @@ class RunRestores(Harness):
         self.kind = z3.Int('kind')
         self.side = [z3.Int('side%d' % i) for i in range(K)]
         self.onraise = z3.Bool('on_error_raise')
+        self.pytest_mode = z3.Bool('pytest_mode')        # DocTest.mode: 'pytest' (the plugin, and the default of a directly built DocTest) or 'native'
         self.base = [self.f >= 0, self.f < K, self.kind >= 0, self.kind < len(KINDS)]
         for i in range(K):
             self.base += [self.side[i] >= 0, self.side[i] < len(SIDE)]
@@ -78,6 +79,7 @@ class RunRestores(Harness):
         kind = KINDS[int(SymInt(self.kind))]
         sides = [SIDE[int(SymInt(v))] for v in self.side]
         onraise = bool(SymBool(self.onraise))
+        mode = 'pytest' if bool(SymBool(self.pytest_mode)) else 'native'
         wrote = {}
         leaked = []
         closed_capture = []
@@ -137,7 +139,7 @@ class RunRestores(Harness):
                 return None
             E.behaviour[i] = beh
         E.compile_hook = lambda idx, mode, filename: hrun.Code(idx, mode, coroutine=(sides[idx] == 'await'), filename=filename)
-        dt = m['doctest_example'].DocTest('', None, 'f', 0, 1, mode='native')
+        dt = m['doctest_example'].DocTest('', None, 'f', 0, 1, mode=mode)
         dt.config['colored'] = False
         dt._parts = parts
         if kind == 'import_failure':
@@ -197,6 +199,8 @@ class RunRestores(Harness):
             ex.witness('expected_exception_after_print', True)
         if any(s == 'alter_filters' and i in wrote for i, s in enumerate(sides)):
             ex.witness('filters_altered', True)
+            if mode == 'pytest':
+                ex.witness('filters_altered_in_pytest_mode', True)
         if any(s == 'await' and i in wrote for i, s in enumerate(sides)):
             ex.witness('awaits', True)
         return props
@@ -205,11 +209,12 @@ class RunRestores(Harness):
         def n(v):
             return model.eval(v, model_completion=True).as_long()
         return {'harness': 'run', 'terminating_part': n(self.f), 'kind': KINDS[n(self.kind)], 'sides': [SIDE[n(v)] for v in self.side],
-                'on_error': 'raise' if z3.is_true(model.eval(self.onraise, model_completion=True)) else 'return'}
+                'on_error': 'raise' if z3.is_true(model.eval(self.onraise, model_completion=True)) else 'return',
+                'mode': 'pytest' if z3.is_true(model.eval(self.pytest_mode, model_completion=True)) else 'native'}
 
 
 class ImportRestores(Harness):
-    witnesses = ('import_raises', 'module_inserts_before', 'module_appends', 'import_exits')
+    witnesses = ('import_raises', 'module_inserts_before', 'module_appends', 'import_exits', 'directory_already_on_sys_path')
 
     def __init__(self, job):
         from .common import instrumented
@@ -219,7 +224,8 @@ class ImportRestores(Harness):
         self.index = z3.Int('index')
         self.edit = z3.Int('module_path_edit')      # 0 none, 1 append, 2+p insert at p
         self.raises = z3.Int('import_outcome')      # 0 returns, 1 ImportError, 2 SystemExit, 3 KeyboardInterrupt
-        self.base = [self.index >= -2, self.index <= 2, self.edit >= 0, self.edit <= 5, self.raises >= 0, self.raises <= 3]
+        self.present = z3.Int('dir_already_on_sys_path_at')   # -1 absent, p >= 0: the module's directory is already entry p of sys.path
+        self.base = [self.index >= -2, self.index <= 2, self.edit >= 0, self.edit <= 5, self.raises >= 0, self.raises <= 3, self.present >= -1, self.present <= 2]
         self.stubs = ['util_import.import_module_from_name -> returns a module / raises ImportError, optionally after adding an entry to sys.path',
                       'split_modpath / modpath_to_modname -> fixed answers for a path that does not exist on disk']
 
@@ -231,6 +237,7 @@ class ImportRestores(Harness):
         index = int(SymInt(self.index))
         edit = int(SymInt(self.edit))
         raises = int(SymInt(self.raises))
+        present = int(SymInt(self.present))
         mod = types.ModuleType('xdv_c12_mod')
 
         def fake_import(modname):
@@ -248,6 +255,9 @@ class ImportRestores(Harness):
         ui.import_module_from_name = fake_import
         ui.split_modpath = lambda modpath, check=True: ('/xdv/tmp/dir', 'xdv_c12_mod.py')
         ui.modpath_to_modname = lambda modpath, *a, **k: 'xdv_c12_mod'
+        saved = list(sys.path)
+        if present >= 0:
+            sys.path.insert(present, '/xdv/tmp/dir')
         before = list(sys.path)
         outcome = None
         try:
@@ -259,13 +269,21 @@ class ImportRestores(Harness):
             outcome = type(e).__name__
         after = list(sys.path)
         own = ['/xdv/module/own/entry'] if edit else []
-        props = {'sys_path_keeps_its_entries': z3.BoolVal(sorted(after) == sorted(before + own) and '/xdv/tmp/dir' not in after)}
+        props = {'sys_path_keeps_its_entries': z3.BoolVal(sorted(after) == sorted(before + own) and (present >= 0 or '/xdv/tmp/dir' not in after))}
         if not edit:
             props['sys_path_identical'] = z3.BoolVal(after == before)
+        if present >= 0 and not edit:
+            # an entry that was there before stays where it was (an equal entry further back must not be the one removed);
+            # when the module ALSO edits sys.path the documented recovery heuristic may remove the earlier equal entry: the
+            # entries are kept (asserted above), their order is then not claimed
+            rest = [e for e in after if e != '/xdv/module/own/entry']
+            props['entry_present_before_keeps_its_place'] = z3.BoolVal(rest == before)
         props['result'] = z3.BoolVal(outcome == ['returned', 'RuntimeError', 'SystemExit', 'KeyboardInterrupt'][raises])
-        sys.path[:] = before
+        sys.path[:] = saved
         if raises:
             ex.witness('import_raises', True)
+        if present >= 0 and index != 0:
+            ex.witness('directory_already_on_sys_path', True)
         if raises >= 2:
             ex.witness('import_exits', True)
         if edit >= 2:
@@ -277,7 +295,7 @@ class ImportRestores(Harness):
     def describe(self, model):
         def n(v):
             return model.eval(v, model_completion=True).as_long()
-        return {'harness': 'imp', 'index': n(self.index), 'edit': n(self.edit), 'raises': n(self.raises)}
+        return {'harness': 'imp', 'index': n(self.index), 'edit': n(self.edit), 'raises': n(self.raises), 'present': n(self.present)}
 
 
 def build(job):
@@ -308,6 +326,10 @@ def replay(job, cex):
             path = os.path.join(d, 'xdv_c12_replay_mod.py')
             with open(path, 'w') as f:
                 f.write(body)
+            saved = list(sys.path)
+            present = cex.get('present', -1)
+            if present >= 0:
+                sys.path.insert(present, d)
             before = list(sys.path)
             try:
                 utils.import_module_from_path(path, index=cex['index'])
@@ -316,8 +338,10 @@ def replay(job, cex):
                 outcome = type(e).__name__
             after = list(sys.path)
             own = ['/xdv/module/own/entry'] if edit else []
-            bad = sorted(after) != sorted(before + own) or d in after
-            sys.path[:] = before
+            bad = sorted(after) != sorted(before + own) or (present < 0 and d in after)
+            if present >= 0 and not edit and [e for e in after if e != '/xdv/module/own/entry'] != before:
+                bad = True
+            sys.path[:] = saved
             sys.modules.pop('xdv_c12_replay_mod', None)
             return {'reproduced': bad, 'detail': 'import_module_from_path(index=%d), module body %r: %s; sys.path before %r after %r' % (
                 cex['index'], body, outcome, before[-3:], after[-4:]), 'signature': 'C12:import:sys.path'}
@@ -352,7 +376,7 @@ def replay(job, cex):
         blocks.append('\n'.join(lines))
     doc = '\n\n'.join(blocks) + '\n'
     dt = list(core.parse_docstr_examples(doc))[0]
-    dt.mode = 'native'
+    dt.mode = cex.get('mode', 'native')
     if kind == 'import_failure':
         def bad_import():
             raise ImportError('no module')
